@@ -316,8 +316,16 @@ P_C19_ClosedStaysQuiet ==
 \* C20: frames on a locally reset stream are never connection errors and never produce events for it
 P_C20_ResetRacesAreStreamErrors ==
   (HasSrc /\ last.a = "recv" /\ Len(last.fs) = 1 /\ last.fs[1].t \in {"HEADERS", "DATA", "WU", "RST"}
-     /\ ClosedBy(Pre, last.fs[1].sid) = "SRST" /\ Pre.conn # "CLOSED" /\ ~Has(Pre, last.fs[1].sid)
-     /\ (last.fs[1].t = "DATA" => FclOf(last.fs[1]) <= Pre.iw.cur)) =>
+     /\ ClosedBy(Pre, last.fs[1].sid) = "SRST" /\ Pre.conn # "CLOSED" /\ Pre.pend = <<>>
+     \* both before and after the closed stream's record has been collected
+     /\ (Has(Pre, last.fs[1].sid) => Pre.streams[last.fs[1].sid].st = "CLOSED")
+     /\ (last.fs[1].t = "DATA" => (FclOf(last.fs[1]) <= Pre.iw.cur /\ FclOf(last.fs[1]) <= Pre.mif))
+     \* a well-formed header block the decoder accepts (anything else is the peer's error, not a race)
+     /\ (last.fs[1].t = "HEADERS" => LET h == FrameTokens(last.fs[1]) IN
+            /\ last.fs[1].blk = "ok" /\ ~(IsInformational(h) /\ last.fs[1].es)
+            /\ (Pre.hdrCap < 0 \/ ListSize(h) <= Pre.hdrCap)
+            /\ last.p.r.c \notin {"ProtocolError"} \/ ~Pre.dl)
+     /\ ~Pre.dl /\ last.p.r.c # "TooManyStreamsError") =>
      /\ ROk
      /\ \A i \in 1..Len(last.p.e) : "sid" \in DOMAIN last.p.e[i] => last.p.e[i].sid # last.fs[1].sid
 \* C22: PUSH_PROMISE leaves only a server, only while the client allows push; a client with push disabled refuses it
